@@ -26,7 +26,9 @@ THOROUGH_N = 40000
 QUICK_BUDGET_S = 80
 THOROUGH_BUDGET_S = 900
 RULE = ("list class drawn from all concrete TimedList subclasses; 0-10 (sometimes 17-40) rows with offsets from a small "
-        "pool (ties, negative, fractional) and bounds drawn from the same pool (equality at the inclusive flags); "
+        "pool (ties, negative, fractional) or, in 45 % of the cases, of chart magnitude (10 s - 20 min in ms, both signs) with "
+        "neighbours 1 ms / 0.5 ms / 1/1024 ms / 1 ulp apart; bounds equal to a row's offset (or tail) or 1 ms / 0.5 ms / 1 ulp "
+        "next to it (equality at the inclusive flags, nothing near the bound may be taken for it); "
         "arbitrary row labels (permuted, gapped, duplicated); 1-12 operations; every observable after every step; "
         "non-trivial = at least 2 rows and (a tie or bound equal to an offset, or labels != positions when indexed)")
 ASSUMPTIONS = [
@@ -155,9 +157,39 @@ def rec_eq(impl, model):
     return True
 
 
+# offsets of ordinary chart magnitude (ms): tens of seconds to 20 minutes, both signs
+BIG = [Fr(12345), Fr(60000), Fr(100000), Fr(180000), Fr(480001, 2), Fr(754321), Fr(1200000), Fr(-35000), Fr(-600000),
+       Fr(3999999, 4)]
+# neighbours of a base: 1 ms, sub-millisecond
+DELTAS = [Fr(0), Fr(0), Fr(1), Fr(-1), Fr(1, 2), Fr(-1, 2), Fr(1, 1024), Fr(-1, 1024), Fr(2), Fr(-5, 2), Fr(1, 4)]
+
+
+def ulp_up(q):
+    return Fr(math.nextafter(float(q), math.inf))
+
+
+def ulp_down(q):
+    return Fr(math.nextafter(float(q), -math.inf))
+
+
+def gen_pool(rng, hold):
+    """the offsets of one case: a few bases of chart magnitude with neighbours 1 ms / sub-ms / 1 ulp apart"""
+    pool = []
+    for b in rng.sample(BIG, rng.choice([1, 1, 2])):
+        pool.append(b)
+        pool += [b + d for d in rng.sample(DELTAS, 4)]
+        if not hold:
+            # 1-ulp neighbours only where the code does no arithmetic on the offset (holds add the length)
+            pool += [ulp_up(b), ulp_down(b)][: rng.choice([0, 1, 2])]
+    return pool
+
+
+_POOL = [None]      # offsets of the case being generated (None: the small default pool)
+
+
 def gen_value(rng, name, dtype, default):
     if name == "offset":
-        return rng.choice(OFFSETS)
+        return rng.choice(_POOL[0] or OFFSETS)
     if name == "length":
         return rng.choice(LENGTHS) if rng.random() < 0.93 else Fr(-1, 2)
     if isinstance(default, list):
@@ -214,7 +246,22 @@ def gen_n(rng, tier):
     return rng.randint(17, 40)
 
 
-def gen_bound(rng):
+def gen_bound(rng, tail=False):
+    pool = _POOL[0]
+    if pool and rng.random() < 0.85:
+        # a bound on / next to a row's key: equal, 1 ms, 0.5 ms, 1 ulp away
+        key = rng.choice(pool)
+        if tail and rng.random() < 0.7:
+            key = key + rng.choice(LENGTHS)
+        r = rng.random()
+        if r < 0.3:
+            return key
+        if r < 0.7:
+            return key + rng.choice([Fr(1), Fr(-1), Fr(1, 2), Fr(-1, 2), Fr(1, 1024), Fr(-1, 1024)])
+        return ulp_up(key) if rng.random() < 0.5 else ulp_down(key)
+    if not pool and rng.random() < 0.15:
+        key = rng.choice(OFFSETS)
+        return ulp_up(key) if rng.random() < 0.5 else ulp_down(key)
     return rng.choice(OFFSETS + [Fr(2), Fr(7, 2), Fr(13, 2), Fr(-10), Fr(2000)])
 
 
@@ -239,15 +286,17 @@ def gen_op(rng, inf, n):
         return dict(k=k, lo=cv(lo), hi=cv(hi), il=il, ih=ih, as_bool=(il == ih and rng.random() < 0.5 and not hold),
                     dflt=rng.random() < 0.2)
     if k == "hafter":
-        return dict(k=k, x=cv(gen_bound(rng)), incl=rng.random() < 0.5, tail=rng.random() < 0.6)
+        tail = rng.random() < 0.6
+        return dict(k=k, x=cv(gen_bound(rng, tail)), incl=rng.random() < 0.5, tail=tail)
     if k == "hbefore":
-        return dict(k=k, x=cv(gen_bound(rng)), incl=rng.random() < 0.5, head=rng.random() < 0.5)
+        head = rng.random() < 0.5
+        return dict(k=k, x=cv(gen_bound(rng, not head)), incl=rng.random() < 0.5, head=head)
     if k == "hbetween":
-        lo, hi = gen_bound(rng), gen_bound(rng)
+        head, tail = rng.random() < 0.5, rng.random() < 0.5
+        lo, hi = gen_bound(rng, tail), gen_bound(rng, not head)
         if rng.random() < 0.8 and lo > hi:
             lo, hi = hi, lo
-        return dict(k=k, lo=cv(lo), hi=cv(hi), il=rng.random() < 0.5, ih=rng.random() < 0.5, head=rng.random() < 0.5,
-                    tail=rng.random() < 0.5)
+        return dict(k=k, lo=cv(lo), hi=cv(hi), il=rng.random() < 0.5, ih=rng.random() < 0.5, head=head, tail=tail)
     if k == "sorted":
         return dict(k=k, rev=rng.random() < 0.4, dflt=rng.random() < 0.3)
     # append
@@ -278,6 +327,14 @@ def gen(rng, tier, i):
     base = ["TimedList", "HoldList", "BpmList", "HitList", "OsuHoldList", "OsuSvList", "QuaHoldList", "OsuBpmList"]
     name = rng.choice(base) if rng.random() < 0.4 else rng.choice(names)
     inf = info(name)
+    _POOL[0] = gen_pool(rng, inf["hold"]) if rng.random() < 0.45 else None
+    try:
+        return _gen(rng, tier, name, inf)
+    finally:
+        _POOL[0] = None
+
+
+def _gen(rng, tier, name, inf):
     if rng.random() < 0.2:
         return gen_fields(rng, name, inf, tier)
     init = gen_init(rng, inf, tier)
@@ -333,6 +390,29 @@ def corpus():
                   ops=[dict(k="after", x=F1(0), incl=True, dflt=False), dict(k="slice", a=None, b=None, c=0)], probes=[0, -1]))
     c.append(dict(claim="history", cls="HoldList", init=dict(how="frame", labels=[], rows=[]),
                   ops=[dict(k="sorted", rev=False, dflt=False)], probes=[0]))
+    # chart magnitude: a row 1 ms / 0.5 ms / 1 ulp off the bound is not on the bound (tolerant comparisons lose this)
+    trow = lambda o: dict(offset=F1(o))
+    big = [trow(180000), trow(180001), trow(Fr(360001, 2)), trow(ulp_up(Fr(180000))), trow(179999)]
+    for incl in (True, False):
+        c.append(dict(claim="history", cls="TimedList", init=dict(how="frame", labels=[0, 1, 2, 3, 4], rows=big),
+                      ops=[dict(k="after", x=F1(180001), incl=incl, dflt=False)], probes=[0, -1]))
+        c.append(dict(claim="history", cls="TimedList", init=dict(how="frame", labels=[0, 1, 2, 3, 4], rows=big),
+                      ops=[dict(k="before", x=F1(180000), incl=incl, dflt=False)], probes=[0, -1]))
+        c.append(dict(claim="history", cls="TimedList", init=dict(how="frame", labels=[0, 1, 2, 3, 4], rows=big),
+                      ops=[dict(k="between", lo=F1(180000), hi=F1(180001), il=incl, ih=incl, as_bool=False, dflt=False)],
+                      probes=[0]))
+    hbig = [hrow(1200000, 0, 500), hrow(1200001, 1, 500), hrow(1199999, 2, Fr(1001, 2)), hrow(1200000, 3, Fr(1001, 2))]
+    osu_extra = dict(hitsound_set=0, sample_set=0, addition_set=0, custom_set=0, volume=0, hitsound_file="")
+    for incl in (True, False):
+        c.append(dict(claim="history", cls="HoldList", init=dict(how="frame", labels=[0, 1, 2, 3], rows=hbig),
+                      ops=[dict(k="hafter", x=F1(1200500), incl=incl, tail=True)], probes=[0, -1]))
+        c.append(dict(claim="history", cls="OsuHoldList", init=dict(how="frame", labels=[3, 1, 2, 0], rows=[dict(r, **osu_extra) for r in hbig]),
+                      ops=[dict(k="hafter", x=F1(1200000), incl=incl, tail=False)], probes=[0, -1]))
+        c.append(dict(claim="history", cls="HoldList", init=dict(how="frame", labels=[0, 1, 2, 3], rows=hbig),
+                      ops=[dict(k="hbefore", x=F1(1200500), incl=incl, head=False)], probes=[0, -1]))
+        c.append(dict(claim="history", cls="HoldList", init=dict(how="frame", labels=[0, 1, 2, 3], rows=hbig),
+                      ops=[dict(k="hbetween", lo=F1(1200000), hi=F1(Fr(2401001, 2)), il=incl, ih=incl, head=incl, tail=not incl)],
+                      probes=[0]))
     c.append(dict(claim="fields", cls="OsuSvList", init=dict(how="items", kws=[dict(offset=F1(1))]), _expect="D34"))
     c.append(dict(claim="fields", cls="QuaHitList", init=dict(how="dict", cols=dict(offset=[F1(1)], column=[1])),
                   _expect="D24-fixed"))
@@ -584,7 +664,7 @@ def append_val(inf, o):
 def wire_op(inf, o):
     """operation as the model takes it (exact values; the appended rows as the implementation received them)"""
     k = o["k"]
-    q = lambda key: o[key]["f"]
+    q = lambda key: R(float(F(o[key]["f"])))      # the exact value of the double the implementation received
     if k == "slice":
         return dict(k=k, a=o["a"], b=o["b"], c=o["c"])
     if k in ("after", "before"):
